@@ -98,6 +98,13 @@ def build_streams(ctx):
         for combo in itertools.product(names + list(bad), repeat=k):
             if any(n in bad for n in combo):
                 sts.append(("seq-badtext", [(ALPHA.get(n) or bad[n])() for n in combo] + [F(8, b"")]))
+    # (4c) the same histories with SILENCE between the frames: the receive call times out, the caller calls again — a
+    #      sequence the RFC allows stays allowed (and a forbidden frame stays forbidden) however the frames are spaced in time
+    for k in range(2, (4 if ctx.thorough() else 3) + 1):
+        for ci, combo in enumerate(itertools.product(names, repeat=k)):
+            gaps = [tuple(range(1, k + 1))] + ([(1 + ci % k,)] if k > 2 else [])
+            for g in gaps:
+                sts.append(("seq-gaps", [ALPHA[n]() for n in combo] + [F(8, b"")], g))
     # (5) ping length boundary
     for n in (124, 125, 126, 127, 200):
         sts.append(("ping-len", [F(9, b"p" * n)]))
@@ -129,8 +136,19 @@ def run(ctx):
     sts = build_streams(ctx)
     apis = [("rf", 0), ("rdf:1", 0), ("rdf:0", 0), ("recv", 0), ("rdf:1", 1), ("recvdata:0", 1)]
     sessions, meta = [], []
-    for kind, frames in sts:
+    sts = [(st + (None,))[:3] for st in sts]
+    for kind, frames, gaps in sts:
         stream = b"".join(f.enc() for f in frames)
+        if kind == "seq-gaps":
+            for api, fire in (("rdf:1", 0), ("rdf:0", 0), ("recv", 0), ("rdf:1", 1)):
+                evs = []
+                for i, f in enumerate(frames):
+                    if i in gaps:
+                        evs.append(("timeout",))
+                    evs.append(("chunk", f.enc()))
+                sessions.append((dict({"fire": fire} if fire else {}, to=500), evs, [api] * (len(frames) + 1 + len(gaps))))
+                meta.append((kind, frames, api + (":fire" if fire else "")))
+            continue
         for api, fire in apis:
             if fire and kind not in ("seq", "hdr-inmsg", "ping-len", "close-reason", "close-code"):
                 continue                    # (per-fragment delivery must not switch any frame-level judgement off)
@@ -148,13 +166,13 @@ def run(ctx):
                 meta.append((kind, frames, api + ":skip-utf8"))
     res = rx.run_sessions(ctx, "session:validate", sessions)
     legal_lines, idx = [], []
-    for kind, frames in sts:
+    for kind, frames, _g in sts:
         ls = legal_walk(frames)
         idx.append((len(legal_lines), len(ls)))
         legal_lines += ls
     lo = common.run_driver_parallel(legal_lines)
     legal_of = {}
-    for (kind, frames), (a, k) in zip(sts, idx):
+    for (kind, frames, _g), (a, k) in zip(sts, idx):
         legal_of[id(frames)] = [x == "1" for x in lo[a:a + k]]
     for (kind, frames, api), (impl, model, ws, sock, line) in zip(meta, res):
         legal = legal_of[id(frames)]
@@ -165,6 +183,8 @@ def run(ctx):
                  sample={"frames": [f.desc() for f in frames], "api": api, "impl": impl[:160]} if len(ctx.samples) < 6 and kind == "seq" and len(frames) == 4 else None)
         inp = {"op": line if len(line) < 300 else line[:300] + "...", "frames": [f.desc() for f in frames], "api": api}
         # walk calls: which frame does each call end at?
+        if kind == "seq-gaps":
+            outs_ = [o for o in outs_ if o != "X:TIMEOUT"]      # (the silences themselves: each costs one call)
         excs = [o for o in outs_ if o.startswith("X:")]
         first_exc = next((o for o in outs_ if o.startswith("X:")), None)
         badtext = kind == "seq-badtext"
